@@ -219,3 +219,19 @@ Proof.
       rewrite Hlast; [exact IH|]. intro Hm. apply map_eq_nil in Hm. contradiction.
   - cbn. exact I.
 Qed.
+
+(* non-vacuity of the hypotheses of task_rows_open: one completed call with a recursive callee, then two
+   open frames, the inner one with a completed callee *)
+Example ex_task_open :
+  let done := [Call 1 10 50 [Call 2 12 20 []; Call 1 20 30 [Call 3 21 22 []]]] in
+  let ros := [mkof 3 70 [Call 2 75 80 []]; mkof 1 60 []] in
+  let tt := mktt done (rev ros) in
+  (task_height tt <= N.to_nat 1024)%nat /\ last_time tt < M64 /\ fits (last_time tt) 0 ros
+  /\ task_rows 1024 (trace_recs tt) = concat (map (rows64 []) done) ++ okids_rows [] (rev ros) ++ open_rows (last_time tt) 0 ros
+  /\ open_rows (last_time tt) 0 ros = [mkrow 3 10 5 false; mkrow 1 20 10 false].
+Proof.
+  cbn zeta. split; [vm_compute; lia|]. split; [rewrite M64_val; vm_compute; reflexivity|].
+  split; [|split; vm_compute; reflexivity].
+  replace (last_time _) with 80 by reflexivity. cbn [fits o_kids o_t0].
+  repeat split; repeat constructor; try (rewrite M64_val; reflexivity); vm_compute; congruence.
+Qed.
